@@ -37,7 +37,8 @@ pub struct Case {
 }
 
 const L1S: [usize; 4] = [1, 64, 4096, 1 << 20];
-const LENS: [usize; 6] = [0, 1, 100, 3000, 70_000, 5000];
+// the last three are 'large object' sizes (multi-part territory): generated rarely
+const LENS: [usize; 9] = [0, 1, 100, 3000, 70_000, 5000, (8 << 20) + 1, (9 << 20) + 5, (16 << 20) + 3];
 const NAMES: [&str; 6] = ["t/data/a.parquet", "t/data/a.parquet2", "t/other/a.parquet", "t/data/b.parquet", "a.parquet", "t/data/hour=01/a.parquet"];
 
 fn key_name(i: usize) -> String {
@@ -138,6 +139,9 @@ async fn run(case: &Case, core: Option<Arc<SimCore>>, out: &mut Outcome) {
                 let i = w.keys.len();
                 let name = key_name(i);
                 let data = content(i, LENS[*len as usize % LENS.len()]);
+                if data.len() > 1 << 20 {
+                    out.class("object-larger-than-8MiB");
+                }
                 // written through the caching store, as a chunk upload through the same handle would be
                 if w.sut.put(&Path::from(name.as_str()), PutPayload::from(data.clone())).await.is_err() {
                     out.set_fail("put-failed", name);
@@ -358,7 +362,7 @@ pub fn exec(case: &Case) -> Outcome {
 
 fn op() -> impl Strategy<Value = Op> {
     prop_oneof![
-        4 => (0u8..6).prop_map(|len| Op::PutNew { len }),
+        4 => prop_oneof![40 => 0u8..6, 1 => 6u8..9].prop_map(|len| Op::PutNew { len }),
         8 => any::<u16>().prop_map(|key| Op::Get { key }),
         2 => (any::<u16>(), any::<u16>(), any::<u16>()).prop_map(|(key, a, b)| Op::GetRange { key, a, b }),
         2 => (any::<u16>(), 0u8..3, any::<u16>()).prop_map(|(key, kind, a)| Op::GetOptsRange { key, kind, a }),
@@ -379,7 +383,7 @@ pub fn def() -> PropDef {
     PropDef {
         id: "C16",
         level: "exploration",
-        rule: "histories of <=40 ops on CachedObjectStore(store, TieredCache{l1 in {1 B, 64 B, 4 KiB, 1 MiB}, l2 in {none, 16 MiB dir, 128 MiB dir}}): put-new-object (len in {0,1,100,3000,5000,70000}; names that share file names / prefixes), get, get_range, get_opts{offset|suffix|bounded range, if_match, if_none_match with right / wrong etag}, head, get of similar-looking missing keys, concurrent gets of 2-4 keys (L1-only: inner reads gated and released by a generated schedule so misses on one key overlap; with a disk tier: spawned readers on a real-time runtime, sampled). Oracle: Ok => bytes equal the stored object (slice for ranges); no failure where the backing store answers; missing key => error. Non-trivial = a key read before is read again after it was evicted from L1 (observed through the miss counter), or two misses on one key overlapped.",
+        rule: "histories of <=40 ops on CachedObjectStore(store, TieredCache{l1 in {1 B, 64 B, 4 KiB, 1 MiB}, l2 in {none, 16 MiB dir, 128 MiB dir}}): put-new-object (len in {0,1,100,3000,5000,70000}, rarely 8 MiB+1 / 9 MiB+5 / 16 MiB+3 - contents from a PRNG stream, so misplaced parts show; names that share file names / prefixes), get, get_range, get_opts{offset|suffix|bounded range, if_match, if_none_match with right / wrong etag}, head, get of similar-looking missing keys, concurrent gets of 2-4 keys (L1-only: inner reads gated and released by a generated schedule so misses on one key overlap; with a disk tier: spawned readers on a real-time runtime, sampled). Oracle: Ok => bytes equal the stored object (slice for ranges); no failure where the backing store answers; missing key => error. Non-trivial = a key read before is read again after it was evicted from L1 (observed through the miss counter), or two misses on one key overlapped.",
         assumptions: &["write-once objects (no overwrite / delete in the generated domain)", "configurations the cache library rejects are counted and skipped", "with a disk tier the interleaving is not controlled (foyer uses its own threads)"],
         subs: || {
             vec![
